@@ -680,7 +680,27 @@ def stage_superposition(ctx):
         det = gen_detector(rng)
         nm, wl = dy(rng, 1.0, 1.5, 3), dy(rng, 0.4, 0.8, 4)
         pol = gen_pvec(rng)
-        theory = Mie() if rng.random() < 0.7 else Mie(False, False)
+        tk = rng.choice(["mie", "mie", "mie_far", "mielens", "amielens"])
+        if tk in ("mielens", "amielens"):
+            # the lens theories take uniform spheres only and a detector in one plane
+            members = [gen_sphere(rng, False, zlo=2.0, zhi=9.0, span=3.0) for _ in range(nsph)]
+        if rng.random() < 0.35 and nsph > 1:
+            # identical particles at different places (dimers / chains of one kind of bead), some stacked along z
+            from holopy.scattering import Sphere
+            first = members[0]
+            members = [first] + [Sphere(n=first.n, r=first.r, center=(m.center[0] if q % 2 else first.center[0],
+                                                                        m.center[1] if q % 2 else first.center[1], m.center[2]))
+                                 for q, m in enumerate(members[1:])]
+        la = dy(rng, 0.4, 1.0, 4)
+
+        def mk_theory():
+            from holopy.scattering import MieLens
+            from holopy.scattering.theory.mielens import AberratedMieLens
+            return (Mie() if tk == "mie" else Mie(False, False) if tk == "mie_far" else MieLens(lens_angle=la) if tk == "mielens"
+                    else AberratedMieLens(spherical_aberration=[0.5, -0.25], lens_angle=la))
+        shared = rng.random() < 0.5
+        theory = mk_theory()
+        th = (lambda: theory) if shared else mk_theory       # one theory object for everything, or a fresh one per call
         shape = rng.choice(["spheres", "tree", "nested"])
         with warnings.catch_warnings():
             warnings.simplefilter("ignore")
@@ -693,8 +713,8 @@ def stage_superposition(ctx):
                 inner = classes()[rng.choice([0, 1, 3])](members[cut:]) if rng.random() < 0.7 else \
                     classes()[0]([classes()[0](members[cut:])])
                 coll = classes()[rng.choice([3, 4])](members[:cut] + [inner])
-            whole = calc_field(det, coll, nm, wl, pol, theory=theory)
-            parts = [calc_field(det, s, nm, wl, pol, theory=theory) for s in members]
+            whole = calc_field(det, coll, nm, wl, pol, theory=th())
+            parts = [calc_field(det, s, nm, wl, pol, theory=th()) for s in members]
         total = parts[0].values.copy()
         for p in parts[1:]:
             total = total + p.values
@@ -702,6 +722,7 @@ def stage_superposition(ctx):
         worst = max(worst, err)
         ctx.explored += 1
         ctx.count("sup:%s:%d" % (shape, nsph))
+        ctx.count("sup:theory:%s:%s" % (tk, "shared-object" if shared else "fresh-objects"))
         if nsph > 1:
             ctx.nontriv(("sup", k))
         if not (err <= TOL_SUP) or whole.dims != parts[0].dims:
